@@ -9,9 +9,11 @@
 //!
 //! Encoding (loop-free on purpose: `copy_from_slice` is a memcpy for CBMC):
 //!   * stream of n <= 31 bytes          -> [n, b0, .., b(n-1), 0, ..]
-//!   * stream of 32*k bytes, 1<=k<=7, each 32-byte block being itself a digest
+//!   * stream of k 32-byte blocks, 1<=k<=7, each block being itself a digest
 //!     whose bytes 4.. are zero ("hash of hashes", used by
 //!     wait_for_sources_ticket) -> [0x80|k, blk0[0..4], blk1[0..4], ..]
+//!     (only the 4 leading bytes of each block are stored: no big array, no
+//!     symbolic offsets)
 //!   * anything else: `assert!(false)` -- the harness left the domain on which
 //!     injectivity is guaranteed; that is a harness error, never assumed away.
 //!
@@ -20,9 +22,6 @@
 //! computed from; under the ideal-hash assumption ticket equality is stream
 //! equality.
 
-#[cfg(feature = "bigcap")]
-pub const CAP: usize = 224;
-#[cfg(not(feature = "bigcap"))]
 pub const CAP: usize = 40;
 pub const RCAP: usize = 48;
 
@@ -70,13 +69,17 @@ pub mod sha2
     {
         pub buf: [u8; CAP],
         pub len: usize,
+        /*  "hash of hashes" streams (wait_for_sources_ticket): 32-byte blocks that are themselves
+            digests of the packed domain (bytes 4.. zero); only their first 4 bytes are kept */
+        pub blk: [[u8; 4]; 7],
+        pub nblk: usize,
     }
 
     impl Sha256
     {
         pub fn new() -> Sha256
         {
-            Sha256 { buf: [0u8; CAP], len: 0 }
+            Sha256 { buf: [0u8; CAP], len: 0, blk: [[0u8; 4]; 7], nblk: 0 }
         }
     }
 
@@ -121,9 +124,24 @@ pub mod sha2
             }
             else if n == 32
             {
-                let mut tmp = [0u8; 32];
-                tmp.copy_from_slice(input);
-                self.buf[self.len..self.len + 32].copy_from_slice(&tmp);
+                /*  a 32-byte block: a digest fed into a digest.  Kept apart from the byte stream
+                    (mixing the two is outside the modelled domain). */
+                if self.len != 0 || self.nblk >= 7
+                {
+                    unsafe { DOMAIN_OK = false; }
+                    assert!(false, "ideal hash: digest block mixed with plain bytes, or more than 7 blocks");
+                    return;
+                }
+                let w = |k : usize| -> u64 { u64::from_le_bytes([input[k], input[k+1], input[k+2], input[k+3], input[k+4], input[k+5], input[k+6], input[k+7]]) };
+                if input[4] != 0 || input[5] != 0 || input[6] != 0 || input[7] != 0 || w(8) != 0 || w(16) != 0 || w(24) != 0
+                {
+                    unsafe { DOMAIN_OK = false; }
+                    assert!(false, "ideal hash: inner digest outside the packed domain");
+                    return;
+                }
+                self.blk[self.nblk] = [input[0], input[1], input[2], input[3]];
+                self.nblk += 1;
+                return;
             }
             else if n == 2
             {
@@ -173,39 +191,28 @@ pub mod sha2
                     return;
                 }
             }
-            if n <= 31
+            if self.nblk > 0
+            {
+                if n != 0
+                {
+                    unsafe { DOMAIN_OK = false; }
+                    assert!(false, "ideal hash: digest blocks mixed with plain bytes");
+                }
+                let k = self.nblk;
+                o[0] = 0x80 | (k as u8);
+                if k > 0 { o[1] = self.blk[0][0]; o[2] = self.blk[0][1]; o[3] = self.blk[0][2]; o[4] = self.blk[0][3]; }
+                if k > 1 { o[5] = self.blk[1][0]; o[6] = self.blk[1][1]; o[7] = self.blk[1][2]; o[8] = self.blk[1][3]; }
+                if k > 2 { o[9] = self.blk[2][0]; o[10] = self.blk[2][1]; o[11] = self.blk[2][2]; o[12] = self.blk[2][3]; }
+                if k > 3 { o[13] = self.blk[3][0]; o[14] = self.blk[3][1]; o[15] = self.blk[3][2]; o[16] = self.blk[3][3]; }
+                if k > 4 { o[17] = self.blk[4][0]; o[18] = self.blk[4][1]; o[19] = self.blk[4][2]; o[20] = self.blk[4][3]; }
+                if k > 5 { o[21] = self.blk[5][0]; o[22] = self.blk[5][1]; o[23] = self.blk[5][2]; o[24] = self.blk[5][3]; }
+                if k > 6 { o[25] = self.blk[6][0]; o[26] = self.blk[6][1]; o[27] = self.blk[6][2]; o[28] = self.blk[6][3]; }
+            }
+            else if n <= 31
             {
                 o[0] = n as u8;
                 o[1..32].copy_from_slice(&self.buf[0..31]);
                 // bytes beyond n in buf are zero by construction (never written)
-            }
-            else if cfg!(feature = "bigcap") && n % 32 == 0 && n / 32 <= 7
-            {
-                let k = n / 32;
-                o[0] = 0x80 | (k as u8);
-                let mut b = 0;
-                while b < 7
-                {
-                    if b < k
-                    {
-                        let base = 32 * b;
-                        let mut j = 4;
-                        while j < 32
-                        {
-                            if self.buf[base + j] != 0
-                            {
-                                unsafe { DOMAIN_OK = false; }
-                                assert!(false, "ideal hash: inner digest outside the packed domain");
-                            }
-                            j += 1;
-                        }
-                        o[1 + 4 * b] = self.buf[base];
-                        o[2 + 4 * b] = self.buf[base + 1];
-                        o[3 + 4 * b] = self.buf[base + 2];
-                        o[4 + 4 * b] = self.buf[base + 3];
-                    }
-                    b += 1;
-                }
             }
             else
             {
@@ -219,6 +226,8 @@ pub mod sha2
         {
             self.buf = [0u8; CAP];
             self.len = 0;
+            self.blk = [[0u8; 4]; 7];
+            self.nblk = 0;
         }
 
         fn output_bits(&self) -> usize
